@@ -438,6 +438,14 @@ func execOp(s *Sexp) string {
 			}
 			return "ok"
 		})
+	case "entriespresent":
+		// (entriespresent xDATA MAX): the room a counted container asks for (verif hook on the real function)
+		d, e1 := unhx(arg(1))
+		mx, ok := atoiU(arg(2))
+		if e1 != nil || !ok {
+			return "bad-op"
+		}
+		return guard(func() string { return fmt.Sprintf("ok %d", plenccodec.VerifEntriesPresent(d, mx)) })
 	case "entryorder":
 		// (entryorder): a map entry whose value field (2) comes BEFORE its key field (1): "fields in any order"
 		return guard(func() string {
